@@ -247,6 +247,12 @@ where
             .ok_or(PlanningError::PlannerUninitialised)?;
         let goal = &pd.goal;
 
+        // The root of the start tree is never passed through `check_motion`, so it has to be
+        // validated here.
+        if !vc.is_valid(&pd.start_states[0]) {
+            return Err(PlanningError::InvalidStartState);
+        }
+
         // Main loop
         loop {
             // 1. Check for timeout
